@@ -51,7 +51,16 @@ func main() {
 				l.Raw(fmt.Sprintf("def %s_%s : List String := %s\n", v.lean, name, gen.LeanStrList(xs)))
 			}
 			emit("cleanup", x.cleanup)
-			emit("init", x.init)
+			// the initialiser: calls in order (`initCalls`), and per call whether its early return closes the NAT socket
+			var calls, closes []string
+			for _, it := range x.init {
+				c, cl, _ := strings.Cut(it, "!")
+				calls = append(calls, c)
+				closes = append(closes, fmt.Sprint(strings.Contains(cl, "natConn.Close")))
+			}
+			l.Comment("initialiser with early returns: %s", strings.Join(x.init, " ; "))
+			emit("initCalls", calls)
+			l.Raw(fmt.Sprintf("def %s_initClosesNat : List Bool := [%s]\n", v.lean, strings.Join(closes, ", ")))
 			emit("uplinkExit", x.uplinkExit)
 			emit("uplinkTail", x.uplinkTail)
 			emit("stop", x.stop)
